@@ -85,6 +85,10 @@ def handle (j : Json) : Json :=
       ("monitor", Json.mkObj [("C19_report_order", Json.bool mOrd), ("C19_exec_iff_start", Json.bool mExec),
         ("C19_truth", Json.bool mTruth), ("C19_end_reported", Json.bool mFin), ("C19_exit", Json.bool mExit),
         ("C19_json", Json.bool mJson)]),
+      ("hyp", Json.mkObj [
+        -- hypothesis of `json_ok` / `C19_json`: every announced task has its final report
+        ("all_reported", Json.bool ((List.range n).all fun t => !tr.any (Ev.isExecOf t) || tr.any (Ev.isTerminalOf t))),
+        ("process_runner", Json.bool fwd)]),
       ("firstBadOrder", optNat (firstBad (repOK true fwd inp.noAct) nf)),
       ("firstBadTruth", optNat (firstBad (truthOK inp n) nf)),
       ("expectedExit", toJson expExit),
